@@ -15,7 +15,7 @@ CHECKS = {
  "C03": dict(technique="runtime monitoring: mutation monitor over authentic tokens (operator/region oracle by construction, tolerated classes) plus a trace rule on the keystream hook (no decryption event during a rejected call) and a validator call log",
    text="Authentic base tokens of all 8 protocols are altered by exhaustive operators (all single-bit flips, all single-character substitutions, all prefixes, boundary shifts, splices, footer swaps, non-canonical base64, signature re-encodings) and seeded random edits; every mutant is presented to the real entry points at all three layers. A mutant must be rejected with a non-plaintext error, without a keystream event and without any validator call; only the two tolerated classes may be accepted, and only with the original content. quick ~7.5e5 evaluations.",
    note="authenticity of base tokens comes from the library itself; unforgeability of the primitives is assumed; hook placement inside CipherText::from", ref="DESIGN.md section 4 C03"),
- "C04": dict(technique="runtime monitoring: wrong-key monitor (oracle by construction: any acceptance under a different key is a violation) over all single-bit key neighbours, key pools, ECDSA keys recovered from the token's own signature and short-plaintext sweeps at all three layers, plus parser sessions (one parser object, the same token under the right key, another key, the right key again; right-wrong-wrong presentations of every refused key; long sessions; two parser objects alive at once)",
+ "C04": dict(technique="runtime monitoring: wrong-key monitor (oracle by construction: any acceptance under a different key is a violation) over all single-bit key neighbours, key pools, ECDSA keys recovered from the token's own signature and short-plaintext sweeps at all three layers, plus parser sessions (one parser object, the same token under the right key, another key, the right key again; right-wrong-wrong presentations of every refused key; fresh processes whose first library call presents a token under another key; long sessions; two parser objects alive at once)",
    text="Authentic tokens are presented under every single-bit neighbour of their key (symmetric, Ed25519, P-384 point, RSA DER), all-zero/all-one/random/rotated/half-zeroed keys and every other pool key; one parser object is handed the same token under changing keys and must answer like a fresh parser each time. quick ~1e5 evaluations.",
    note="forgery resistance of the primitives assumed; different encodings of the same key are out of scope", ref="DESIGN.md section 4 C04"),
  "C05": dict(technique="runtime monitoring: footer monitor (string-equality oracle in the harness, own base64url encoder) over the footer catalogue squared at all three layers, footer-segment edits (incl. non-canonical encodings and long extensions), a footer length sweep, parser sessions with a changing expected footer (also two parser objects alive at once) and builders used three times",
@@ -30,7 +30,7 @@ CHECKS = {
  "C08": dict(technique="runtime monitoring: offline differential checker over recorded event logs in both directions against an independent executable reference (pure-Python refpaseto pinned to all 48 official vectors), incl. series sealed and opened through ONE key object and series sealed from ONE core builder",
    text="The library's tokens for explicit (key, nonce, message, footer, assertion) are recomputed by the reference and must be byte-identical (local) / verify (public); builder-produced tokens must open under the reference; the footer segment must be present iff the footer is non-empty; reference-built tokens (fresh nonces, and v1 wire nonces at AES-CTR carry boundaries) must be opened by the library to exactly the message. quick ~3.8e3 tokens each way, thorough ~6e4 with messages to 256 KiB.",
    note="the reference could share a misreading of the specification with the implementation: it is pinned to every official vector and each primitive to its RFC/FIPS known-answer test; no shared code, language or crypto library", ref="DESIGN.md section 4 C08", engine="c08-differential"),
- "C09": dict(technique="runtime monitoring: panic/crash monitor (catch_unwind + panic-location hook + parent-side death detection; thorough adds a plain-release pass, valgrind memcheck and a Miri pass over the ring-free paths) over hostile token strings at all 24 entry points and Key::<N>::try_from",
+ "C09": dict(technique="runtime monitoring: panic/crash monitor (catch_unwind + panic-location hook + parent-side death detection; thorough adds a plain-release pass, valgrind memcheck and a Miri pass over the ring-free paths) over hostile token strings at all 24 entry points, live-parser sessions (one parser object re-configured between parses) and Key::<N>::try_from",
    text="Any Ok/Err is accepted, a panic or process death is the violation. Exhaustive over decoded payload lengths 0..=400 per protocol x fill x footer, every prefix of authentic tokens, hex strings of every length 0..=200; seeded random and large inputs on top.",
    note="inputs above 3 MiB not driven; valgrind decides only on process death or invalid write/free below a library frame", ref="DESIGN.md section 4 C09"),
  "C10": dict(technique="runtime monitoring: history monitor over recorded nonce fields of N builds under one key (pairwise distinctness, per-bit Hoeffding bound, constant-byte check) on one thread, on 8-16 threads at once and across idle pauses, repeated in two separate processes and in a third one built with the plain release profile (no debug assertions), with a cross-process comparison, plus RNG fault injection through a guarded hook (no nonce may repeat while the RNG fails)",
